@@ -2,7 +2,7 @@ from props._walk import run_walks
 
 
 def run(ctx):
-    corr, violations = run_walks(ctx, {"partition", "others", "events", "backtrack"}, {"heur"}, 250, 4000, ["split_low_ground"])
+    corr, violations = run_walks(ctx, {"partition", "others", "events", "backtrack"}, {"heur"}, 250, 15000, ["split_low_ground"])
     ctx["report"].cov["rule"] = (
         "random walks of the real engine: every branching decision is made by a real shipped value heuristic on the real "
         "stack arrays and replayed on the Lean model (branch taken, saved alternatives with their recorded replay events, "
